@@ -325,6 +325,8 @@ class Interp:
             return len(v) > 0
         if isinstance(v, SymList):
             return I(v.count) > 0
+        if hasattr(v, "sym_len") and not isinstance(v, (SArr, SArr2)):
+            return I(v.sym_len(self)) > 0
         if isinstance(v, Forall):
             raise Unsupported("truth value of a quantified formula")
         if isinstance(v, SArr):
